@@ -10,6 +10,7 @@ from bcommon import prepare  # noqa
 TRUSTED = ["the memory model is the hand-written release/acquire machine of Model/BoxcarRA.v (RC11-style per-object views, no load buffering; SeqCst treated as AcqRel); conformance of rustc/LLVM/hardware to it, and races inside rayon, parking_lot or the allocator, are outside",
            "the program order of the vector's accesses in BoxcarRA.v is hand-modelled; the ORDERINGS are regenerated from boxcar.rs on every run (Gen/GenOrderings.v), the order of the yield-point sites is tied by the scheduled histories shared with C08",
            "worker side (per-thread matcher scratch, result list): accessed only by the holder of the worker mutex or by pool threads inside a fork/join section of the run holding it - rayon fork/join and parking_lot mutex happens-before edges are trusted, not modelled"]
+ROLES = ("inflight", "entries", "active")
 ASSUMPTIONS = ["get_unchecked's contract (caller already happens-after an observation of the entry) is a precondition of the model step"]
 
 
@@ -19,6 +20,41 @@ def run(ctx, broken):
     gen = open(os.path.join(vlib.COQ, "Gen", "GenOrderings.v")).read()
     rows = re.findall(r'\("src/boxcar.rs", "(\w+)", "(\w+)", "(\w+)", (\d+), \[([^\]]*)\]\)', gen)
     res["evaluations"] = len(rows)
+    # The field / function columns of the table are canonical ROLE names, not Rust identifiers: the translator decides
+    # from the struct definitions which atomic field is the index counter ("inflight": the AtomicU64 of the vector), the
+    # bucket pointer ("entries": the AtomicPtr) and the entry flag ("active": the AtomicBool of the entry type), and
+    # which private helper publishes a bucket ("get_or_alloc": the one function with a compare_exchange on the bucket
+    # pointer).  What it matched is in its info (evidence: coverage.translator); messages print the real identifier.
+    tinfo = ((ctx.get("translate") or {}).get("info") or {}).get("GenOrderings.v") or {}
+    real_field = dict(tinfo.get("roles") or {})
+    real_fn = {"get_or_alloc": tinfo["get_or_alloc"]} if tinfo.get("get_or_alloc") else {}
+    res["extra"]["roles"] = {"fields": real_field, "functions": real_fn,
+                             "note": "role -> identifier in src/boxcar.rs as matched by the translator; a field without a role is held to the strictest requirement"}
+
+    def fld(field):
+        r = real_field.get(field)
+        if r is None:
+            return "`%s`" % field if field not in ROLES else "`%s` (role name; identifier not reported by the translator)" % field
+        return "`%s`" % r if r == field else "`%s` (role %s)" % (r, field)
+
+    def site(field, op):
+        r = real_field.get(field, field)
+        return "`%s.%s`" % (r, op) if r == field else "`%s.%s` (role %s)" % (r, op, field)
+
+    def fun(fn):
+        r = real_fn.get(fn, fn)
+        return "%s()" % r if r == fn else "%s() (role %s)" % (r, fn)
+
+    if tinfo.get("model_keys_without_site"):
+        near = tinfo.get("model_keys_without_site_candidates") or {}
+        text = "; ".join("%s (nearest rows: %s)" % (k, ", ".join(near.get(k) or []) or "none") for k in tinfo["model_keys_without_site"])
+        msg = ("sites the model looks up in Gen/GenOrderings.v that src/boxcar.rs no longer has (model_keys_without_site): %s; roles matched by the translator: fields %s, get_or_alloc = %s%s"
+               % (text, json.dumps(real_field, sort_keys=True), tinfo.get("get_or_alloc"), (" (" + tinfo["get_or_alloc_note"] + ")") if tinfo.get("get_or_alloc_note") else ""))
+        ctx["notes"].append(msg)
+        if any(b[0] == "proof" for b in broken):
+            # the reason Props/C09.v (C09_current_ok: ords_of_sites atomic_sites = Some ..) stops compiling
+            broken.append(("model-keys", msg))
+            print("note: C09: " + msg)
     # oracle on the SOURCE orderings, independent of the Coq predicate: the conjunction the theorem needs, stated per
     # FIELD and operation (not per function name): a row of a function the model does not know (a helper that was
     # not inlined, a new function) is held to the strictest requirement of its field, never left unconstrained.
@@ -36,21 +72,23 @@ def run(ctx, broken):
         if field == "inflight":
             return None
         if op in ("compare_exchange", "compare_exchange_weak"):
-            return ("rel", "acq"), "compare_exchange of the bucket pointer must be (>= Release, >= Acquire)"
+            if field != "entries":
+                return ("acqrel", "acq"), "compare_exchange of an atomic the model does not know (%s): held to the strictest requirement, (>= AcqRel, >= Acquire)" % fld(field)
+            return ("rel", "acq"), "compare_exchange of the bucket pointer %s must be (>= Release, >= Acquire)" % fld(field)
         if op == "load":
             if fn == "get_unchecked" and field in ("entries", "active"):
                 return None
             if field == "entries":
-                return ("acq",), "bucket-pointer load followed by an access to the bucket must be >= Acquire"
+                return ("acq",), "load of the bucket pointer %s followed by an access to the bucket must be >= Acquire" % fld(field)
             if field == "active":
-                return ("acq",), "load of `active` before the non-atomic read of the entry must be >= Acquire"
-            return ("acq",), "load of an atomic the model does not know (`%s`): held to the strictest requirement, >= Acquire" % field
+                return ("acq",), "load of the entry flag %s before the non-atomic read of the entry must be >= Acquire" % fld(field)
+            return ("acq",), "load of an atomic the model does not know (%s): held to the strictest requirement, >= Acquire" % fld(field)
         if op == "store":
             if field == "active":
-                return ("rel",), "store of `active` after the non-atomic writes of the entry must be >= Release"
-            return ("rel",), "store to `%s` (bucket pointer / atomic the model does not know): held to the strictest requirement, >= Release" % field
+                return ("rel",), "store of the entry flag %s after the non-atomic writes of the entry must be >= Release" % fld(field)
+            return ("rel",), "store to %s (bucket pointer / atomic the model does not know): held to the strictest requirement, >= Release" % fld(field)
         # swap / fetch_* on anything but the inflight counter: both directions
-        return ("acqrel",), "read-modify-write of `%s` (not the inflight counter): held to the strictest requirement, >= AcqRel" % field
+        return ("acqrel",), "read-modify-write of %s (not the index counter, role inflight): held to the strictest requirement, >= AcqRel" % fld(field)
 
     constrained = [r for r in rows if requirement(r[0], r[1], r[2])]
     res["distinct_nontrivial"] = len(constrained)
@@ -63,7 +101,7 @@ def run(ctx, broken):
             if len(ol) != len(want) or not all(at_least(o, w) for o, w in zip(ol, want)):
                 need = text
         if need:
-            res["failures"].append({"class": "ordering", "what": "src/boxcar.rs %s(): %s.%s #%s has ordering %s: %s; racing execution: see the matching C09_need_* lemma / C09_pinned_races in coq/Props/C09.v (writer publishes a bucket or entry, reader observes it through this access and touches memory initialised by non-atomic writes it does not happen-after)" % (fn, field, op, k, ords, need), "site": [fn, field, op, k, ords]})
+            res["failures"].append({"class": "ordering", "what": "src/boxcar.rs %s: %s #%s has ordering %s: %s; racing execution: see the matching C09_need_* lemma / C09_pinned_races in coq/Props/C09.v (writer publishes a bucket or entry, reader observes it through this access and touches memory initialised by non-atomic writes it does not happen-after)" % (fun(fn), site(field, op), k, ords, need), "site": [fn, field, op, k, ords], "identifiers": {"fn": real_fn.get(fn, fn), "field": real_field.get(field, field)}})
     # program structure: the scheduled histories of C08 (sites in program order) - small batch
     hist = bcommon.histories(ctx["seed"] + 500, "quick")[:60]
     recs, errs = bcommon.run(ctx, hist)
